@@ -72,7 +72,7 @@ fn case_json(c: &Case) -> serde_json::Value {
 fn gen_cases(ctx: &Ctx) -> Vec<Case> {
     let mut v = Vec::new();
     let mut k = 0u64;
-    let mut seed = |k: &mut u64| {
+    let seed = |k: &mut u64| {
         *k += 1;
         ctx.seed.wrapping_mul(0x9E37_79B9).wrapping_add(*k)
     };
@@ -127,7 +127,7 @@ fn gen_cases(ctx: &Ctx) -> Vec<Case> {
         v.push(Case { kind: Kind::Fastq, width: 0, crlf: j % 2 == 1, nseq: 25, container: 0, blank: 0, no_final_newline: j % 3 == 2, ragged: 0, big: false, fs: j == 0, pseed: seed(&mut k) });
     }
     // seeded random part
-    let n = ctx.budget("cases", 760, 30000);
+    let n = ctx.budget("cases", 1400, 30000);
     let mut rng = Rng::new(ctx.seed, 0xC11, 0);
     for _ in 0..n {
         let r = rng.below(100);
@@ -156,7 +156,7 @@ fn gen_cases(ctx: &Ctx) -> Vec<Case> {
                 _ => *rng.pick(&[1usize, 1, 2, 3, 3, 5, 9]),
             },
             container: *rng.pick(&[0u8, 0, 1, 1, 2]),
-            blank: *rng.pick(&[0u8, 0, 0, 1, 1, 2]),
+            blank: *rng.pick(&[0u8, 0, 0, 0, 0, 0, 0, 1, 1, 2]),
             no_final_newline: rng.chance(1, 4),
             ragged: rng.below(RAGGED_KINDS.len() as u64) as u8,
             big: rng.chance(1, 3),
@@ -600,20 +600,25 @@ fn main() {
     };
     run_cases(&ctx, &mut rep, cases.len() as u64, 60.0, &f, &|i| case_json(&cases[i as usize]));
     if ctx.replay.is_none() {
-        let g = |k: &str| rep.counters.get(k).copied().unwrap_or(0);
         let q = ctx.quick();
-        rep.floor("files", g("files"), if q { 400 } else { 10000 });
-        rep.floor("queries", g("queries"), if q { 60_000 } else { 1_000_000 });
-        rep.floor("queries_in_range", g("queries_in_range"), 20_000);
-        rep.floor("queries_clipped_at_end", g("queries_clipped_at_end"), 5_000);
-        rep.floor("queries_start_beyond_end", g("queries_start_beyond_end"), 5_000);
-        rep.floor("indexer_accepts", g("indexer_accepts"), 2_000);
-        rep.floor("indexer_rejects", g("indexer_rejects"), 200);
-        rep.floor("bgzf_files_queried", g("bgzf_files_queried"), 50);
-        rep.floor("build_from_path_readers", g("build_from_path_readers"), 10);
-        rep.floor("fasta_records_read_back", g("fasta_records_read_back"), 300);
-        rep.floor("fastq_records_read_back", g("fastq_records_read_back"), 500);
-        rep.floor("fastq_index_records_compared", g("fastq_index_records_compared"), 500);
+        let floors: [(&str, u64); 12] = [
+            ("files", if q { 400 } else { 10000 }),
+            ("queries", if q { 60_000 } else { 1_000_000 }),
+            ("queries_in_range", 20_000),
+            ("queries_clipped_at_end", 5_000),
+            ("queries_start_beyond_end", 5_000),
+            ("indexer_accepts", 2_000),
+            ("indexer_rejects", 200),
+            ("bgzf_files_queried", 50),
+            ("build_from_path_readers", 10),
+            ("fasta_records_read_back", 300),
+            ("fastq_records_read_back", 500),
+            ("fastq_index_records_compared", 500),
+        ];
+        for (k, need) in floors {
+            let got = rep.counters.get(k).copied().unwrap_or(0);
+            rep.floor(k, got, need);
+        }
     }
     rep.finish(&ctx);
 }
